@@ -28,6 +28,7 @@ pub static DEF: PropertyDef = PropertyDef {
     timeout_s: 30,
     hang_class: None,
     sub_builds: &[("dev", 1500, 30000, true)],
+    stack_mb: 64,
 };
 
 /// Source-level "story fault" injector: the mutant is used only if it still compiles.
